@@ -14,7 +14,7 @@ env.import_phylib()
 @st.composite
 def strategy(draw):
     spec = draw(D.dataset_spec(raw=True, dense=True, features=False, tfeatures=False, naming='ks',
-                               curated=False, max_nc=6, raw_backends=('flat', 'npy', 'cbin')))
+                               curated=None, max_nc=6, raw_backends=('flat', 'npy', 'cbin')))
     # more than 20 chunks (so that the stride is >= 2) and a sample rate different from 1
     c = max(2, spec['n_raw'] // draw(st.sampled_from([25, 30, 45])))
     spec['raw']['chunk'] = c
